@@ -68,7 +68,7 @@ def c17_a(ctx: Ctx):
 def c17_b(ctx: Ctx):
     """Every link derives from the selection."""
     R = "C17-b"
-    f = ctx.fn(CLV)
+    f = ctx.desugared(ctx.fn(CLV))
     out = []
     env = ctx.env(f)
     # roles: the link table is what _update_view receives; the selection is the local bound under the `job_ids is None` decision
@@ -77,7 +77,12 @@ def c17_b(ctx: Ctx):
     selv = [n for n in body_nodes(f) if isinstance(n, ast.Assign) and len(n.targets) == 1 and isinstance(n.targets[0], ast.Name)
             and any(t == "job_ids is None" for (t, _) in common.facts_at(ctx, f, n, "n")) and "project" in names_in(n.value)]
     JOBS = selv[0].targets[0].id if selv else "jobs"
-    stores = [n for n in body_nodes(f) if isinstance(n, ast.Assign) and any(isinstance(t, ast.Subscript) and canon(t.value) == LINKS for t in n.targets)]
+    # the link table and every local table that is assigned to it wholesale (links = links_2)
+    tables = {LINKS}
+    for n in body_nodes(f):
+        if isinstance(n, ast.Assign) and isinstance(n.value, ast.Name) and any(isinstance(t, ast.Name) and t.id in tables for t in n.targets):
+            tables.add(n.value.id)
+    stores = [n for n in body_nodes(f) if isinstance(n, ast.Assign) and any(isinstance(t, ast.Subscript) and canon(t.value) in tables for t in n.targets)]
     if not stores:
         return [ctx.inc(R, f, f.node, "no store into the link table")]
     pm = ctx.parents(f)
@@ -106,8 +111,14 @@ def c17_b(ctx: Ctx):
             else:
                 out.append(ctx.inc(R, f, s, f"link target is {v}", construct=k))
         elif "find_jobs" in it or it in ("project", "iter(project)", "list(project)"):
-            out.append(ctx.viol(R, f, s, f"a link is created while iterating {it}, a second enumeration of the whole project: with an empty selection (job_ids=[]) an unselected job is linked",
-                                construct=CLV + "|links-from-project"))
+            # the known defect of the reference tree does this only when the link table came out empty; anything wider is another violation
+            facts = common.expand_facts(ctx, f, common.facts_at(ctx, f, s, "n"))
+            only_if_empty = any((t in tables and not pol) or (t.replace(" ", "") in {f"len({x})==0" for x in tables} and pol) for (t, pol) in facts)
+            guard = "" if only_if_empty else "|" + ";".join(sorted(f"{t}={pol}" for (t, pol) in facts if "job_ids" not in t))[:80]
+            out.append(ctx.viol(R, f, s, f"a link is created while iterating {it}, a second enumeration of the whole project"
+                                + (": with an empty selection (job_ids=[]) an unselected job is linked" if only_if_empty else
+                                   f" (under {sorted(t for (t, p) in facts if p)[:2]}): a selection that does not cover the project gets a link to a job it does not contain"),
+                                construct=CLV + "|links-from-project" + guard))
         else:
             out.append(ctx.inc(R, f, s, f"links stored while iterating {it}"))
     # selection: job_ids is None <=> whole project
@@ -205,11 +216,28 @@ def c17_c(ctx: Ctx):
                 out.append(ctx.ok(R, uv, m.ast, "obsolete links are removed before any link is (re)created"))
     else:
         out.append(ctx.inc(R, uv, uv.node, "_update_view: unlink / make_link not found"))
-    srt = [n for n in body_nodes(av) if isinstance(n, ast.For) and "_find_dead_branches" in canon(common.inline_at(ctx, av, n.iter, n))]
-    if srt and "reversed(sorted(" in canon(srt[0].iter) and "key=len" in canon(srt[0].iter):
+    avd = ctx.desugared(av)
+    srt = [n for n in body_nodes(avd) if isinstance(n, ast.For) and "_find_dead_branches" in canon(common.inline_at(ctx, avd, n.iter, n))]
+    it0 = canon(common.inline_at(ctx, avd, srt[0].iter, srt[0])).replace(" ", "") if srt else ""
+    if srt and (("reversed(sorted(" in it0 and "key=len" in it0) or ("sorted(" in it0 and "key=len" in it0 and "reverse=True" in it0)):
         out.append(ctx.ok(R, av, srt[0], "dead branches are removed deepest first"))
     elif srt:
         out.append(ctx.inc(R, av, srt[0], "order of dead-branch removal not recognised"))
+    # every non-empty dead branch is removed - also a dead directory directly below the view root (a branch of length 1)
+    for lp in srt:
+        bv = lp.target.id if isinstance(lp.target, ast.Name) else None
+        adds = [c for st in lp.body for c in ast.walk(st) if isinstance(c, ast.Call) and isinstance(c.func, ast.Attribute) and c.func.attr in ("append", "add")]
+        kk = LV + ":_analyze_view|all-dead-branches"
+        for a in adds[:1]:
+            facts = common.facts_at(ctx, avd, a, "n")
+            lo, hi = common.len_range(facts, bv) if bv else (0, None)
+            if lo >= 2:
+                out.append(ctx.viol(R, av, a, f"only dead branches with at least {lo} components are removed: a dead directory directly below the view root (e.g. view/a after the key `a` "
+                                    "disappeared from all selected jobs) is left behind as an empty directory", construct=kk))
+            elif lo == 1 or (bv, True) in facts:
+                out.append(ctx.ok(R, av, a, "every non-empty dead branch is scheduled for removal", construct=kk))
+            else:
+                out.append(ctx.inc(R, av, a, f"filter on dead branches not recognised: {sorted(facts)}", construct=kk))
     # the link's target is expressed relative to the directory that contains the link: os.path.relpath(<job dir>, dirname(<link>))
     for c in [x for x in body_nodes(uv) if isinstance(x, ast.Call) and (LV + ":_make_link") in common.targets_of(ctx, uv, x) and len(x.args) >= 2]:
         srcv = common.inline_at(ctx, uv, c.args[0], c)
